@@ -22,6 +22,10 @@ func genSrvCfg(r *Rand, c *Case, tier string) {
 	// the implementation may provide the optional request hooks (SrvReqProcessOps), which then call Process /
 	// PostProcess themselves as the interface asks
 	c.Cfg["prochook"] = int64(r.Pick(0, 0, 1))
+	// the implementation may keep one long-lived Dir per file and answer every Tstat from it (the library's own Fsrv
+	// does); connections of one server need not speak the same dialect
+	c.Cfg["sharedir"] = int64(r.Pick(0, 0, 1))
+	c.Cfg["dotu_other"] = int64(r.Pick(0, 0, 1))
 }
 
 func effMsize(c *Case) int {
